@@ -272,7 +272,7 @@ def flip_block(api, strength, out):
                             % (err, FLIP_BOUND), "data": {"block": "flip", "operator": name, "err": err}})
 
 
-FLIP_MEASURED = 1.8e-3      # worst operator (helmholtz.single_layer / maxwell.electric_field) at orders (3, 3)
+FLIP_MEASURED = 1.3e-3      # worst operator (maxwell.electric_field) at orders (3, 3) on the unchanged tree
 FLIP_BOUND = 2.0e-2
 
 
